@@ -45,6 +45,12 @@ const INCLUDE_RECURSION_COST: usize = 10;
 #[cfg(feature = "macros")]
 const MACRO_RECURSION_COST: usize = 4;
 
+/// Identity of a set of instructions (used to tie loop recursion to where the loop runs).
+#[inline]
+fn instructions_id(instructions: &Instructions<'_>) -> usize {
+    instructions as *const Instructions<'_> as usize
+}
+
 struct Executor<'env>(std::marker::PhantomData<&'env Environment<'env>>);
 
 #[cfg(feature = "multi_template")]
@@ -253,7 +259,14 @@ impl<'env> Executor<'env> {
 
         macro_rules! recurse_loop {
             ($capture:expr, $loop_object:expr) => {{
-                let Some(jump_target) = $loop_object.recurse_jump_target else {
+                // the jump target is only meaningful in the instructions the
+                // loop was started in.  A loop object that reaches an included
+                // template, a block or a macro of another template cannot be
+                // continued from there.
+                let Some(jump_target) = $loop_object
+                    .recurse_jump_target
+                    .filter(|_| $loop_object.recurse_owner == instructions_id(state.instructions))
+                else {
                     bail!(Error::new(
                         ErrorKind::InvalidOperation,
                         "cannot recurse outside of recursive loop",
@@ -1209,6 +1222,7 @@ impl<'env> Executor<'env> {
                 depth,
                 flags & LOOP_FLAG_WITH_LOOP_VAR != 0,
                 (flags & LOOP_FLAG_RECURSIVE != 0).then_some(pc),
+                instructions_id(state.instructions),
                 current_recursion_jump,
             )),
             ..Frame::default()
